@@ -581,7 +581,10 @@ def _scale_doublemad(
         np.nanmean(data_right, axis=axis, keepdims=True) / norm_aad,
         mad_right,
     )
-    return np.where(data < loc, mad_left, mad_right)
+    # A sample equal to the location lies on neither side: give it the mean of the
+    # two MADs, so that the estimate does not depend on the sign convention of the data.
+    mad_mid = 0.5 * (mad_left + mad_right)
+    return np.where(data < loc, mad_left, np.where(data > loc, mad_right, mad_mid))
 
 
 def _scale_diffcov(
